@@ -73,6 +73,11 @@ func runC08(ctx *core.Ctx) {
 		c.buildSQL()
 		execC08(ctx, c)
 	})
+	// a sliding-window source that keeps sending on-time rows which never raise the maximum timestamp is busy,
+	// not idle (IDLETIMEOUT): nothing fires early, nothing is lost once it really goes idle
+	ctx.Cases("c08idle", ctx.N(1, 4), 4, func(i int, r *rand.Rand) {
+		execC02IdleBusy(ctx, core.CaseRef{Stream: "c08idle", Index: i}, r, "sliding")
+	})
 	for k, v := range sched.Hits() {
 		ctx.Count("hook_hits."+k, v)
 	}
